@@ -232,7 +232,7 @@ impl DomGen {
         // is written), some only the other spelling, some only the canonical one, some neither. What the writer learns
         // about a spelling on the first instance it meets must not decide what it does for the later ones.
         let spellings: Option<(usize, usize)> = if self.fmt == Fmt::Binary && self.aliases && self.known_classes && self.known_props && twins.is_none() && r.chance(1, 5) {
-            let class = *r.pick(&["Part", "Sound", "Humanoid", "MeshPart", "TextLabel", "Model", "Decal", "SpawnLocation"]);
+            let class = *r.pick(&["Part", "Sound", "Humanoid", "MeshPart", "TextLabel", "Model", "Decal", "SpawnLocation", "ImageLabel", "ImageButton", "MeshPart"]);
             let k = 2 + r.below(4);
             let first = spec.nodes.len();
             let parent = r.below(first);
@@ -250,7 +250,22 @@ impl DomGen {
             let class = spec.nodes[first].class.clone();
             // (canonical name, other spelling, type) with both spellings carrying the same value type
             let set = settable_props(&class, self.fmt, true);
-            let mut pairs: Vec<(String, String, VariantType)> = vec![];
+            let mut pairs: Vec<(String, String, VariantType, VariantType)> = vec![];
+            // legacy ContentId spellings that MIGRATE to a Content property (Image -> ImageContent ...): (target, legacy, ...)
+            for (_, d) in dbwalk::all_props(db, &class) {
+                let lname: &str = d.name.as_ref();
+                if let Some(rs) = dbwalk::resolve(db, &class, lname) {
+                    if let dbwalk::Ser::Migrate(m) = rs.ser {
+                        if dbwalk::vtype(d) == Some(VariantType::ContentId) && !rs.via_alias {
+                            if let Some(t) = dbwalk::travel(db, &class, &m.new_property_name) {
+                                if t.declared_ty == VariantType::Content && t.back_name == m.new_property_name {
+                                    pairs.push((m.new_property_name.clone(), lname.to_owned(), VariantType::Content, VariantType::ContentId));
+                                }
+                            }
+                        }
+                    }
+                }
+            }
             for (name, ty, back) in &set {
                 let canon = match dbwalk::resolve(db, &class, name) {
                     Some(rs) => rs.canonical.name.to_string(),
@@ -259,14 +274,14 @@ impl DomGen {
                 if &canon != name && !matches!(ty, VariantType::Ref | VariantType::UniqueId | VariantType::SharedString) {
                     if let Some((_, cty, cback)) = set.iter().find(|(n, _, _)| *n == canon) {
                         if cty == ty && cback == back {
-                            pairs.push((canon, name.clone(), *ty));
+                            pairs.push((canon, name.clone(), *ty, *ty));
                         }
                     }
                 }
             }
             pairs.sort_by(|a, b| (&a.0, &a.1).cmp(&(&b.0, &b.1)));
             if !pairs.is_empty() {
-                let (canon, other, ty) = r.pick(&pairs).clone();
+                let (canon, other, ty, other_ty) = r.pick(&pairs).clone();
                 let back = dbwalk::travel(db, &class, &canon).map(|t| t.back_name.clone());
                 for (j, id) in (first..first + k).enumerate() {
                     spec.nodes[id].props.retain(|(n, _)| back.is_none() || back != dbwalk::travel(db, &class, n).map(|t| t.back_name.clone()));
@@ -275,12 +290,18 @@ impl DomGen {
                     // (the other spelling is pushed first: the oracle keeps the last value it sees for a logical
                     // property, and the canonical spelling is the one the writer reads first)
                     if matches!(pattern, 0 | 1 | 4) {
-                        if let Some(v) = self.vgen.gen(r, ty) {
+                        if let Some(v) = self.vgen.gen(r, other_ty) {
                             spec.nodes[id].props.push((other.clone(), PV::V(v)));
                         }
                     }
                     if matches!(pattern, 0 | 2) {
-                        if let Some(v) = self.vgen.gen(r, ty) {
+                        // (an explicit Content that is an EMPTY uri is not the same value as "no content")
+                        let v = if ty == VariantType::Content && r.chance(1, 3) { Some(Variant::Content(rbx_dom_weak::types::Content::from_uri(""))) } else { self.vgen.gen(r, ty) };
+                        let v = match v {
+                            Some(Variant::Content(c)) if matches!(c.value(), rbx_dom_weak::types::ContentType::Object(_)) => Some(Variant::Content(rbx_dom_weak::types::Content::from_uri("rbxassetid://9"))),
+                            other => other,
+                        };
+                        if let Some(v) = v {
                             spec.nodes[id].props.push((canon.clone(), PV::V(v)));
                         }
                     }
